@@ -194,6 +194,47 @@ def run(tier):
         spelled = (TRUE_S if gcp == "true" else FALSE_S)[sp] if gcp != "none" else "-"
         V.violation(f"bool-override:{flag}:{gcp}:{filev}:{feat}:{spelled.lower()}", f"--{flag}: GIT_CONFIG_PARAMETERS says '{spelled}', the file's [delta] section "
                     f"{filev}, an enabled feature {feat}: --show-config reports {bres[f['run']][1]}", {"run": bres[f["run"]][0].to_json()})
+    # the colour mode, an option spread over two flags (light / dark): a flag on the command line decides, whatever gitconfig sources
+    # say about the other flag; otherwise each flag resolves like any boolean
+    def theme_of(out):
+        m = re.search(r"^\s*syntax-theme\s*=\s*(\S.*?)\s*$", lexer_strip(out), re.M)
+        return m.group(1) if m else None
+    themes = {theme_of(core.run_delta(["--no-gitconfig", f"--{m}", "--show-config"], b"").out): m for m in ("light", "dark")}
+    defmode = themes.get(theme_of(core.run_delta(["--no-gitconfig", "--show-config"], b"").out))
+    if len(themes) != 2 or None in themes or defmode is None:
+        raise core.ToolError(f"calibration of the colour mode failed: {themes}")
+    T3 = ("none", "true", "false")
+    cjobs = [(cli, a, b, c, d, e, f) for cli in ("none", "light", "dark") for a in T3 for b in T3 for c in T3 for d in T3 for e in T3 for f in T3]
+    few = [j for j in cjobs if sum(x != "none" for x in j[1:]) <= 2]
+    cjobs = few + rnd.sample(cjobs, 150 if tier == "quick" else len(cjobs))
+    if tier == "quick":
+        cjobs = [j for j in few if j[0] != "none" and sum(x != "none" for x in j[1:]) <= 1] + rnd.sample(few, 120) + cjobs[-150:]
+
+    def cone(ij):
+        i, (cli, gl, gd, fl, fd, tl, td) = ij
+        path = os.path.join(bdir, f"mode{i}")
+        with open(path, "w") as fh:
+            fh.write("[delta]\n" + (f"    light = {fl}\n" if fl != "none" else "") + (f"    dark = {fd}\n" if fd != "none" else "")
+                     + ("    features = featm\n" if (tl, td) != ("none", "none") else "")
+                     + ('[delta "featm"]\n' + (f"    light = {tl}\n" if tl != "none" else "") + (f"    dark = {td}\n" if td != "none" else "")
+                        if (tl, td) != ("none", "none") else ""))
+        env = {}
+        gcp = [f"'delta.light={gl}'"] * (gl != "none") + [f"'delta.dark={gd}'"] * (gd != "none")
+        if gcp:
+            env["GIT_CONFIG_PARAMETERS"] = " ".join(gcp)
+        r = core.run_delta(["--config", path] + ([f"--{cli}"] if cli != "none" else []) + ["--show-config"], b"", env=env, prefix_args=(),
+                           allow_usage_error=True)
+        return r, (themes.get(theme_of(r.out), "error") if r.code == 0 else "error")
+    cres = core.pmap(cone, list(enumerate(cjobs)))
+    cevents = [{"run": i, "cli": j[0], "gcpL": j[1], "gcpD": j[2], "fileL": j[3], "fileD": j[4], "featL": j[5], "featD": j[6], "def": defmode,
+                "shown": shown} for i, (j, (r, shown)) in enumerate(zip(cjobs, cres))]
+    cfailed, ctr = tlc.validate_trace("Trace_ColourMode", cevents)
+    log(f"[{PID}] {len(cevents)} colour-mode placements (light / dark over command line, override, file, feature) judged by TLC, {len(cfailed)} rejected")
+    for f in cfailed:
+        j = cjobs[f["run"]]
+        V.violation("colour-mode:" + ":".join(j), f"colour mode: command line {j[0]}, GIT_CONFIG_PARAMETERS light={j[1]} dark={j[2]}, [delta] light={j[3]} "
+                    f"dark={j[4]}, enabled feature light={j[5]} dark={j[6]}: --show-config reports {cres[f['run']][1]} "
+                    f"({cres[f['run']][0].err[:80]!r})", {"run": cres[f["run"]][0].to_json()})
     # trees of custom features (depth up to 3): which section's value wins
     NAMES = ["A", "B", "C", "D", "E"]
     njobs = []
